@@ -32,7 +32,7 @@ import wntr.sim.models.param as mparam
 from wntr.sim.core import WNTRSimulator
 from wntr.sim.solvers import NewtonSolver
 
-P = ["C16", "C05", "C10", "C04"]
+P = ["C16", "C05", "C10", "C04", "C06", "C09"]
 QN = "wntr.sim.core:WNTRSimulator.run_sim"
 
 
@@ -62,6 +62,7 @@ class G(NativeModel):
         self.got_results = False
         self.compute_calls = 0
         self.step_failed = False  # the last solver call of the current trial failed
+        self.tank_time = None     # the time to which update_tank_heads has integrated the tank heads stored in the network
 
     def ob(self, name, goal):
         self.path.oblige(name, goal, kind="protocol")
@@ -224,6 +225,9 @@ def _models(cfg):
             wn.sim_time = t2
             sim.fields["_rule_iter"] = r2
             g.fresh = False
+            # it integrates to each rule instant it visits - no promise about the last one -, but never on the first step (c04_timestep)
+            left_at = p.fresh("tank_heads_left_at", "int")
+            g.tank_time = SV(z3.If(fs, iv(g.tank_time), left_at.t), "int")
             return None
         reg(W._compute_next_timestep_and_run_presolve_controls_and_rules, compute,
             verified_by="wntr.sim.core:WNTRSimulator._compute_next_timestep_and_run_presolve_controls_and_rules (contracts/c04_timestep.py)")
@@ -260,12 +264,18 @@ def _models(cfg):
             return (0, 0)
         reg(W._get_isolated_junctions_and_links, get_isolated,
             verified_by="wntr.sim.core:WNTRSimulator._get_isolated_junctions_and_links (contracts/c09_isolation.py)")
-        for f in (hyd.update_tank_heads, hyd.update_model_for_controls, mparam.source_head_param, mparam.expected_demand_param):
+        for f in (hyd.update_model_for_controls, mparam.source_head_param, mparam.expected_demand_param):
             reg(f, lambda i, a, k: None)
+
+        def tank_heads(interp, args, kw):
+            wn = args[0]
+            wn.ghost.tank_time = wn.sim_time      # head = previous solved head + net inflow x (sim_time - prev_sim_time) / area
+        reg(hyd.update_tank_heads, tank_heads, verified_by="wntr.sim.hydraulics:update_tank_heads (contracts/c06_tanks.py)")
 
         def solver_helper(interp, args, kw):
             g = cfg["g"][0]
             p = interp.path
+            g.ob("tank_heads_integrated_to_the_time_being_solved", rv(g.tank_time) == rv(cfg["sim"][0].fields["_wn"].sim_time))
             ok = p.branch(p.fresh("solver_converged", "bool").t)
             g.solved = ok
             g.step_failed = not ok
@@ -329,6 +339,7 @@ def _inv(cfg):
                ("trial_within_limit_while_resolving", z3.Implies(res, z3.And(iv(L["trial"]) >= 0, iv(L["trial"]) <= iv(L["max_trials"])))),
                ("first_step_means_time_zero", z3.Implies(tb(L["first_step"]), z3.And(st == 0, pv == -1))),
                ("not_past_the_duration", st <= z3.ToReal(iv(wn.options.time.duration))),
+               ("tank_heads_at_the_time_being_resolved_or_initial", z3.Implies(z3.Or(res, tb(L["first_step"])), rv(g.tank_time) == st)),
                ("no_pending_save_no_failure", z3.BoolVal(g.pending is None and not g.failed and L["results"].error_code is None))]
         ht = sim.fields.get("_hydraulic_timestep")
         if isinstance(ht, int) and not isinstance(wn._prev_sim_time, (type(None),)):
@@ -351,6 +362,7 @@ def _havoc(interp, env):
         wn._prev_sim_time = p.fresh("prev_sim_time", "int")
         sim.fields["_rule_iter"] = p.fresh("rule_iter0", "int")
         g.last_saved = p.fresh("last_saved", "int")
+        g.tank_time = p.fresh("tank_time", "int")
         p.assume(g.last_saved.t >= -1)
         g.solved = g.fresh = g.post_ran = g.quiet = False
     return ["first_step", "trial", "resolve", heap]
@@ -400,6 +412,7 @@ def _case(start, report, conv_err, backup, hyd_mode):
         if hyd_mode != "sym":
             cx.assume(cx.t(h0) >= ht)         # the effective step is never larger than the configured one
         wn = Wn(g, st, pv, dur, rts, mt, option_hyd_step=h0)
+        g.tank_time = 0 if start == "fresh" else pv      # initial levels / the heads of the last solved step
         res = Results(g)
         cfg["results"][0] = res
         sim = cx.obj(WNTRSimulator, _wn=wn, _rule_iter=cx.int("stale_rule_iter"), _change_tracker=Tracker(g), _model=None,
